@@ -6,6 +6,7 @@ import (
 	"go/token"
 	"go/types"
 	"os"
+	"strings"
 
 	"fv/internal/core"
 
@@ -893,4 +894,117 @@ func checkDispatchErrorToken(c *core.Ctx) {
 		}
 	}
 	c.Floor("err.token", 2)
+}
+
+// checkNestingDepth: a recursive-descent reader (the parser, the codec's decoder) recurses once per nesting level of
+// its input. Each level consumes input, so it terminates - but the depth is bounded by the input length only, and the
+// Go stack is not: a few megabytes of `((((…` or of nested GROUPED_EXPRESSION frames end in `fatal error: stack
+// overflow`, which no recover() can catch. Required: a depth counter - an integer field of the receiver that the
+// recursive functions increment and compare with a limit. Reported once per reader.
+func checkNestingDepth(c *core.Ctx, rule, rel, recv string) {
+	var funcs []*ssa.Function
+	for _, fn := range c.Prog.ModuleFuncs(rel) {
+		if fn.Signature.Recv() != nil && core.NamedTypeName(derefType(fn.Signature.Recv().Type())) == recv {
+			funcs = append(funcs, fn)
+		}
+	}
+	in := map[*ssa.Function]bool{}
+	for _, f := range funcs {
+		in[f] = true
+	}
+	succ := map[*ssa.Function][]*ssa.Function{}
+	for _, f := range funcs {
+		for _, b := range f.Blocks {
+			for _, i := range b.Instrs {
+				if cal := core.StaticCallee(i); cal != nil && in[cal] {
+					succ[f] = append(succ[f], cal)
+				}
+				// parser tables: functions stored as values are called through the Pratt maps
+				if mc, ok := i.(*ssa.MakeClosure); ok {
+					if g, isFn := mc.Fn.(*ssa.Function); isFn {
+						for _, fv := range g.FreeVars {
+							_ = fv
+						}
+						for _, gb := range g.Blocks {
+							for _, gi := range gb.Instrs {
+								if cal := core.StaticCallee(gi); cal != nil && in[cal] {
+									succ[f] = append(succ[f], cal)
+								}
+							}
+						}
+					}
+				}
+			}
+		}
+	}
+	// functions on a cycle
+	reach := func(from, to *ssa.Function) bool {
+		seen := map[*ssa.Function]bool{}
+		work := append([]*ssa.Function{}, succ[from]...)
+		for len(work) > 0 {
+			f := work[len(work)-1]
+			work = work[:len(work)-1]
+			if f == to {
+				return true
+			}
+			if seen[f] {
+				continue
+			}
+			seen[f] = true
+			work = append(work, succ[f]...)
+		}
+		return false
+	}
+	var cyc []*ssa.Function
+	for _, f := range funcs {
+		if reach(f, f) {
+			cyc = append(cyc, f)
+		}
+	}
+	key := rel + "." + recv + "|nesting-depth"
+	if len(cyc) == 0 {
+		c.Discharge(rule, key, 0, "no recursion")
+		return
+	}
+	// a depth counter: an integer field of the receiver, incremented and compared in a function of the cycle
+	guarded := false
+	for _, f := range cyc {
+		inc := map[string]bool{}
+		cmp := map[string]bool{}
+		for _, b := range f.Blocks {
+			for _, i := range b.Instrs {
+				if st, ok := i.(*ssa.Store); ok {
+					if fld := core.FieldOf(st.Addr); fld != nil {
+						if bo, isBo := st.Val.(*ssa.BinOp); isBo && bo.Op == token.ADD {
+							inc[fld.Name()] = true
+						}
+					}
+				}
+				if bo, ok := i.(*ssa.BinOp); ok {
+					switch bo.Op {
+					case token.GTR, token.GEQ, token.LSS, token.LEQ:
+						for _, o := range []ssa.Value{bo.X, bo.Y} {
+							for x := range core.BackSliceLocal(o) {
+								if fld := core.FieldOf(x); fld != nil && strings.HasSuffix(core.FieldOwner(x), "."+recv) {
+									if bt, isB := fld.Type().Underlying().(*types.Basic); isB && bt.Info()&types.IsInteger != 0 {
+										cmp[fld.Name()] = true
+									}
+								}
+							}
+						}
+					}
+				}
+			}
+		}
+		for n := range inc {
+			if cmp[n] {
+				guarded = true
+			}
+		}
+	}
+	if guarded {
+		c.Discharge(rule, key, cyc[0].Pos(), "a depth counter of the receiver is incremented and compared with a limit inside the recursion")
+	} else {
+		c.Report(rule, key, cyc[0].Pos(), fmt.Sprintf("%d mutually recursive methods of %s.%s recurse once per nesting level of the input with no depth limit: the stack grows with the input, and a few million nested levels end in `fatal error: stack overflow`, which cannot be recovered", len(cyc), rel, recv))
+	}
 }
